@@ -13,7 +13,8 @@ while args:
     if a == "--checks": checks = args.pop(0).split(",")
     elif a == "--tier": tier = args.pop(0)
     elif a == "--seeds": seeds = args.pop(0).split(",")
-src = "/tmp/seed-%s-out" % prop
+rnd = os.environ.get("SEED_ROUND", "")
+src = "/tmp/seed%s-%s-out" % (rnd, prop)
 diff = os.path.join(src, "change%s.diff" % k); demo = os.path.join(src, "demo%s_test.go" % k); notes = os.path.join(src, "change%s.md" % k)
 env = dict(os.environ, GOFLAGS="-mod=mod", GOPROXY="off", GOSUMDB="off", GOTOOLCHAIN="local")
 tmp = tempfile.mkdtemp(prefix="vseed.")
@@ -56,7 +57,7 @@ try:
             print(c, "seed", s, verdict, "%.0fs" % (time.time() - t0), first)
     meta["checks"] = res
     meta["ran"] = "tools/seed_eval.py %s %s --checks %s --tier %s --seeds %s" % (prop, k, ",".join(checks), tier, ",".join(seeds))
-    out = os.path.join(V, "seeded", "%s-%s" % (prop, k)); os.makedirs(out, exist_ok=True)
+    out = os.path.join(V, "seeded", "%s-%s%s" % (prop, ("r%s-" % rnd) if rnd else "", k)); os.makedirs(out, exist_ok=True)
     shutil.copy(diff, os.path.join(out, "patch.diff")); shutil.copy(demo, os.path.join(out, "demo_test.go"))
     if os.path.exists(notes): shutil.copy(notes, os.path.join(out, "notes.md"))
     old = {}
